@@ -76,6 +76,16 @@ def run_trainer(key):
     if key.get('data') == 'offset':
         # spread 1 around an offset of 1e5: E[y^2] - mean^2 would lose ten digits
         y = y + 1e5 * (1 + np.arange(D))
+    if key.get('data', '').startswith('tight'):
+        # frames concentrated around one direction (spread 1e-2 .. 1e-4): small scatter eigenvalues
+        y = y[..., :1, :] + 10.0 ** -int(key['data'][5:]) * y
+    if key.get('data') == 'planar':
+        # frames on D-1 coordinate axes with unequal shares plus a spread of 3e-4: one scatter eigenvalue of about
+        # 1e-7 next to moderate, distinct ones (the blurred-start M-step of a cBMM with D = K + 1)
+        r = A.rng(seed, 'planar', fam, D, N, lead)
+        share = np.array([0.55, 0.27, 0.18, 0.12, 0.08][:D - 1])
+        axis_of = r.choice(D - 1, size=lead + (N,), p=share / share.sum())
+        y = np.eye(D)[axis_of] * (1 + 0.1 * r.standard_normal(lead + (N, 1))) + 3e-4 * y
     if key.get('data') == 'collinear':
         # exactly collinear frames (positive multiples of one vector per slice): r_bar = 1
         r = A.rng(seed, 'collinear', fam, D, N, lead)
@@ -160,12 +170,14 @@ def run_trainer(key):
 
 
 def bingham_gradient(lam, scatter_eig, idx=None, tol_=1e-6):
-    if np.min(np.abs(np.diff(np.sort(lam)))) < 1e-6:
-        return None   # duplicate eigenvalues are spread by the implementation: not judged
-    if np.min(scatter_eig) < 1e-6 or np.abs(lam).max() > 1e6:
-        return None   # numerically rank-deficient scatter: concentrations explode, equation ill conditioned
+    if np.min(np.abs(np.diff(np.sort(lam)))) < 1e-6 or np.min(np.abs(np.diff(np.sort(scatter_eig)))) < 2e-8:
+        return None   # (scatter) eigenvalues closer than the documented 1e-8 are spread by the implementation
+    if np.min(scatter_eig) < 1e-12 or np.abs(lam).max() > 1e13:
+        return None   # numerically rank-deficient scatter: the estimate does not exist / the equation is 0 = 0
     g = RD.bingham_grad_log_norm(lam)
-    if np.abs(g - scatter_eig).max() > tol_:
+    # every moment equation relative to its own scatter eigenvalue (an absolute criterion says nothing about the
+    # small eigenvalues, i.e. about the large concentrations)
+    if np.abs(g - scatter_eig).max() > tol_ or np.abs((g - scatter_eig) / scatter_eig).max() > 1e-5:
         return (f'Bingham eigenvalues {lam} do not solve grad log c(lambda) = scatter eigenvalues '
                 f'{scatter_eig} (gradient {g})')
     return None
@@ -550,6 +562,15 @@ def subchecks(tier, seed):
                     for pat in (('none',), ('graded',), ('tiny',)):
                         for opt in ('full', 'diagonal', 'spherical'):
                             yield ('gauss', D, N, lead, pat, opt, 'offset', seed)
+        for D in (2, 3, 4):
+            for N in (2 * D, 12):
+                for pat in (('none',), ('graded',)):
+                    for kind in ('tight2', 'tight3', 'tight4'):
+                        yield ('bingham', D, N, (), pat, 'default', kind, seed)
+        for D in (3, 4):
+            for N in (24, 60):
+                for pat in (('none',), ('graded',)):
+                    yield ('bingham', D, N, (), pat, 'default', 'planar', seed)
         for fam, opts in (('watson', (500.0, 5.0)), ('vmf', ((1e-10, 500.0), (2.0, 5.0)))):
             for D in (2, 3, 5, 8):
                 for N in (2, 3, 7, 12, 31):
